@@ -237,7 +237,10 @@ theorem C19_fails_without_cow_when_data_is_overwritten :
   decide
 
 /-! ### non-vacuity -/
-example : DataIntact [countStrat 1 0 0, countStrat 0 0 0, countStrat 0 1 0] := by intro s _ m d; rfl
+example : DataIntact [countStrat 1 0 0, countStrat 0 0 0, countStrat 0 1 0] := by
+  intro s hs m d
+  simp only [List.mem_cons, List.not_mem_nil, or_false] at hs
+  rcases hs with rfl | rfl | rfl <;> rfl
 example : runSeq (Mode.current true) ((0, 0) : Nat × Nat) 0 [countStrat 1 0 1, countStrat 0 0 0, countStrat 0 1 0]
     = [(1, 0, 1), (0, 0, 0), (0, 1, 0)] := by decide
 example : runSeq (Mode.original true) ((0, 0) : Nat × Nat) 0 [countStrat 1 0 1, countStrat 0 0 0, countStrat 0 1 0]
